@@ -12,5 +12,6 @@ CONSTANTS
   OptEvery = 1
   ConcEvery = 4
   Conc = 8
+  PinEvery = 2
 INVARIANT Emit
 CHECK_DEADLOCK FALSE
